@@ -169,13 +169,30 @@ class ExecWalker(pathwalk.Walker):
                 self.set_owned(st, var, True)
                 st.events.append(('lock', loc))
             return
+        if cn in ('yaclib::detail::Spinlock::lock', 'yaclib::detail::Spinlock::unlock'):
+            var = ('spin', self.member_name(fn, n['obj']))
+            if last == 'lock':
+                self.set_owned(st, var, True)
+                st.events.append(('lock', loc))
+            else:
+                if var not in st.data.get('owned', ()):
+                    st.events.append(('unlock-not-held', loc))
+                self.set_owned(st, var, False)
+                st.events.append(('unlock', loc))
+            return
         if cn == 'yaclib::IExecutor::Submit':
-            st.events.append(('submit', fn.text(n['args'][0]) if n.get('args') else '?', loc))
+            st.events.append(('submit', fn.text(n['args'][0]) if n.get('args') else '?', loc, self.held(st)))
         elif last in ('IncRef', 'DecRef'):
             st.events.append((last, loc))
         elif last in ('wait', 'wait_for', 'wait_until', 'join', 'sleep_for', 'sleep_until') or \
                 cn in ('std::mutex::lock', 'yaclib::detail::MutexEvent::Wait'):
             st.events.append(('block', cn, loc))
+
+    def member_name(self, fn, i):
+        n = fn.sn(i)
+        while n is not None and n['k'] in ('ImplicitCastExpr', 'UnaryOperator', 'CXXStaticCastExpr'):
+            n = fn.sn(n['ch'][0])
+        return n.get('dn') if n is not None and n['k'] == 'MemberExpr' else None
 
     def is_var_init(self, fn, i):
         par = fn.parents
